@@ -16,7 +16,8 @@ THEOREMS = ["LNN.C13_aggregate_zero_iff",
             "LNN.C13_fol_nonneg",
             "LNN.C13_fol_up_zero_iff",
             "LNN.C13_fol_down_zero_iff",
-            "LNN.C13_fol_pass_zero_iff"]
+            "LNN.C13_fol_pass_zero_iff",
+            "LNN.C13_fol_restricted"]
 MODULES = ["LnnVerif.Props.C13"]
 FACETS = {"bounds", "reported"}
 
